@@ -13,7 +13,7 @@ if not ops:
 work = os.path.join(vlib.WORK_ROOT, 'replay')
 shutil.rmtree(work, ignore_errors=True); os.makedirs(work)
 vlib.translate(); vlib.lake_build(['driver'])
-exe, log = vlib.build_harness(os.path.join(work, 'h'), r.get('driver', 'drv_api.c'))
+exe, log = vlib.build_harness(os.path.join(work, 'h'), r.get('driver', 'drv_api.c'), r.get('link_extra', []))
 io, rc, err = props.run_impl_batch(exe, os.path.join(work, 'scratch'), ops)
 mo, _, _ = vlib.run_model(ops)
 for o, a, b in zip(ops, io, mo + ['<none>'] * len(io)):
